@@ -770,7 +770,7 @@ COMMON = dict(files=FILES, rule=RULE, classify=classify, search=search,
                            "group: 1 <= fieldCount <= 64 (VARINT_GROUP_MAX_FIELDS), values[] holds fieldCount entries",
                            "pinned build defines neither NEON nor AVX2: batch entry points take the scalar paths"],
               trusted_base=["python re-statement of tagged length / zigzag / byte width used only by oracles and stream builders"],
-              configs_quick=["pinned", "O0"], configs_thorough=["pinned", "O0", "asan", "native"])
+              configs_quick=["pinned", "O0", "native"], configs_thorough=["pinned", "O0", "asan", "native"])
 
 PARTS = {
     "C02": dict(COMMON, coq_props=["Properties_C02_dfg"], generate=generate_C02, oracles=ORACLES_C02),
